@@ -69,7 +69,7 @@ struct Sched {
 
 struct Table {
     open: BTreeSet<i32>,
-    next: i32,
+    next: i64, // the number the next successful dup returns (fd0 + 1, fd0 + 2, ..; fd0 may be i32::MAX)
     log: Vec<String>,
     points: Vec<String>, // "t.i:name" for every granted step
 }
@@ -155,7 +155,13 @@ fn sim_dup(fd: i32) -> Result<i32, nix::errno::Errno> {
         t.points.push(format!("{}:dup({})=EBADF", who, fd));
         return Err(nix::errno::Errno::EBADF);
     }
-    let n = t.next;
+    if t.next > i32::MAX as i64 {
+        // the table is full (the check never generates fd0 + number of dups > i32::MAX)
+        t.log.push(format!("dup({})=ERR@{}", fd, who));
+        t.points.push(format!("{}:dup({})=ERR", who, fd));
+        return Err(nix::errno::Errno::EMFILE);
+    }
+    let n = t.next as i32;
     t.next += 1;
     t.open.insert(n);
     t.log.push(format!("dup({})={}@{}", fd, n, who));
@@ -412,7 +418,7 @@ fn run_case(line: &str) -> String {
     let case = Arc::new(Case {
         sched: Mutex::new(Sched { grant: vec![false; n], arrivals: vec![0; n], finished: vec![false; n] }),
         cv: Condvar::new(),
-        table: Mutex::new(Table { open: [fd0].into_iter().collect(), next: fd0 + 1, log: Vec::new(), points: Vec::new() }),
+        table: Mutex::new(Table { open: [fd0].into_iter().collect(), next: fd0 as i64 + 1, log: Vec::new(), points: Vec::new() }),
     });
     CTX.with(|c| *c.borrow_mut() = Some((UNCONTROLLED, case.clone())));
 
@@ -531,7 +537,9 @@ fn stress(rounds: usize) -> String {
     }
     let (mut double_take, mut wrong_value, mut bad_close) = (0usize, 0usize, 0usize);
     for r in 1..=rounds {
-        let fdnum = 1000 + (r % 7) as i32;
+        // numbers over the whole range of RawFd (a value-dependent defect shows as wrong_value)
+        const NUMS: [i32; 9] = [1000, 0, 2, 255, 256, 65535, 65536, 1 << 24, i32::MAX];
+        let fdnum = NUMS[r % NUMS.len()];
         let before = closes.load(Ordering::SeqCst);
         let orig = UnixFd::new(fdnum);
         for s in &slots {
